@@ -2,6 +2,7 @@
     Statements only; proofs are in proofs/. *)
 From Coq Require Import NArith List.
 Require Import Base Schema GenRabin CrcSpec Rabin CanonicalForm RabinProofs CanonicalFormProofs.
+Require Import Json Parse PcfSpec SchemaTextProofs ParseResolveDefs ParseResolveProofs SchemaJson SchemaJsonDefs SchemaJsonGuard SchemaJsonProofs.
 Open Scope N_scope.
 
 (* every entry of the crate's FP_TABLE (regenerated from rabin.rs) is the specification's entry *)
@@ -33,6 +34,25 @@ Proof. exact le64_inj. Qed.
 Theorem C08_fingerprint : forall fuel g t,
   canonical_form fuel g = Ok t -> fingerprint fuel g = Ok (le64 (crc64_avro t)).
 Proof. exact fingerprint_is_crc. Qed.
+
+(* end to end for parsed schemas: the fingerprint of the schema parsed from ANY document valid per the
+   specification is the CRC-64-AVRO of the SPECIFICATION's Parsing Canonical Form of that document
+   (PcfSpec.pcf: fullnames, primitives as strings, only name/type/fields/symbols/items/values/size in
+   that order, logical types and other attributes dropped, named types in full at first occurrence) *)
+Theorem C08_parsed : forall j fuel,
+  spec_valid_backward j = true -> ~ rec_cycle (graph_of j) -> (jsize j < fuel)%nat ->
+  exists g, parse_schema j = Ok g /\ fingerprint fuel g = Ok (le64 (crc64_avro (pcf fuel None j))).
+Proof. exact C08_fingerprint_parsed. Qed.
+
+(* "identical for any two spellings": a built graph and the schema parsed back from its regenerated
+   JSON (another spelling of the same schema) have the same fingerprint *)
+Theorem C08_respell_regenerated : forall g fuel, wf_graph g -> (json_fuel g <= fuel)%nat ->
+  exists j g', schema_json fuel g = Ok (json_text j) /\ parse_schema j = Ok g' /\
+    (forall fuel' t, fingerprint fuel' g = Ok t -> fingerprint fuel' g' = Ok t).
+Proof.
+  intros g fuel Hwf Hf. destruct (SchemaJsonProofs.C09_regen g fuel Hwf Hf) as (j & g' & H1 & H2 & _ & H4 & _).
+  exists j, g'. auto.
+Qed.
 
 (* non-vacuity: the specification's own test vector ("null" -> 7195948357588979594) *)
 Example C08_null_vector :
